@@ -179,6 +179,12 @@ Definition claimed_b (m : method_desc) : bool := m_const m && negb (randomized_b
 Definition arg_shared_offenders (d : class_desc) : list string :=
   filter (fun x => existsb (fun m => claimed_b m && mem x (m_reads m)) (cd_methods d)) (cd_arg_shared d).
 
+(* accepted methods for which acceptance says something: they read a member or have a (benign) effect *)
+Definition stateless_b (m : method_desc) : bool :=
+  match m_reads m, m_effects m with [], [] => true | _, _ => false end.
+Definition stateful_accepted (d : class_desc) : nat :=
+  length (filter (fun m => claimed_b m && method_sc_b d m && negb (stateless_b m)) (cd_methods d)).
+
 Definition sc_offenders (d : class_desc) : list string :=
   map m_name (filter (fun m => claimed_b m && negb (method_sc_b d m)) (cd_methods d)).
 
